@@ -75,6 +75,12 @@ def alphabet():
     A["foreign-prefix"] = (d, ADDR1, None, True)
     d, _ = trap_bytes(b"public1", PAYLOADS[0], 110)
     A["foreign-longer"] = (d, ADDR2, None, True)
+    # the listener's community with octets >= 0x80 inside / behind it (what a
+    # lossy text decoding would drop)
+    d, _ = trap_bytes(b"pub\xc3\xa9lic", PAYLOADS[0], 115)
+    A["foreign-nonascii-inside"] = (d, ADDR1, None, True)
+    d, _ = trap_bytes(b"public\xff", PAYLOADS[0], 116)
+    A["foreign-nonascii-behind"] = (d, ADDR2, None, True)
     A["truncated"] = (d3[: len(d3) // 2], ADDR2, None, True)
     # valid envelope and lengths, but the PDU body is damaged (the request-id
     # field carries the OCTET STRING tag / the binding list is not a sequence)
